@@ -450,6 +450,8 @@ class SimPeer:
         self.log = []           # every URL requested, in order
         self.opens = {}
         self.served = []        # (url, body index)
+        self.injected = {}      # url -> list of fault markers consumed (one per open) before the page is served
+        self.fired = []
         self.opener = urllib.request.OpenerDirector()
         self.opener.add_handler(SimPeerHandler(self))
         self.opener.add_handler(urllib.request.FileHandler())
@@ -459,7 +461,14 @@ class SimPeer:
         self.log.append(url)
         k = self.opens.get(url, 0)
         self.opens[url] = k + 1
-        bodies = self.pages.get(url)
+        queue = self.injected.get(url)
+        if queue:
+            fault = queue.pop(0)
+            self.fired.append((url, fault))
+            bodies = [fault]
+            k = 0
+        else:
+            bodies = self.pages.get(url)
         if bodies is None:
             raise urllib.error.URLError(f'simulated: no such host or page {url}')
         if not isinstance(bodies, list):
@@ -475,6 +484,10 @@ class SimPeer:
             raise urllib.error.HTTPError(url, 404, 'Not Found', email.message.Message(), None)
         plan = self.plans.get(url)
         return SimResponse(url, body, plan=Plan.from_json(plan) if plan else None)
+
+    def inject(self, url, faults):
+        """The next len(faults) opens of `url` fail with the given markers ('urlerror' | 'timeout' | 'http404')."""
+        self.injected[url] = list(faults)
 
     def install(self):
         """Route the library's plain urlopen() through this peer too."""
